@@ -15,7 +15,8 @@ func init() {
 		ID:    "C19",
 		Title: "Credential decisions follow the documented rule",
 		Explanation: "C19.a DECIDE: the decision tables of CredentialsStore.AA (5 atoms, 32 valuations), HasPerm (4 atoms), HasAnyPerm's loop and Check are extracted from SSA and compared with the statement: authorised iff the permission or 'all' is granted to all users, or a non-empty username with exactly its stored password holds the permission or 'all' directly or through the all-users entry; the arguments of each sub-decision (all-users constant, username/password/perm parameters, the 'all' constant) are matched by identity. " +
-			"C19.b INIT: in Load the JSON decode target is allocated (or zeroed) inside the per-entry loop, so fields omitted by one entry cannot inherit the previous entry's values, and the per-user permission map is replaced by a fresh map before it is filled (last definition wins).",
+			"C19.b INIT: in Load the JSON decode target is allocated (or zeroed) inside the per-entry loop, so fields omitted by one entry cannot inherit the previous entry's values, and the per-user permission map is replaced by a fresh map before it is filled (last definition wins). " +
+			"C19.c TAINT: what NewCredentialsStoreFromFile hands to Load is the file's content, carried (file handle, conversions, readers over the bytes) but never passed through a call that can rewrite the text.",
 		NotCovered: []string{"exhaustive enumeration of credential files (the complementary dynamic check)", "JSON decoding semantics of encoding/json (trusted)"},
 		Run:        runC19,
 	})
@@ -60,6 +61,7 @@ func isConstStr(s string) func(ssa.Value) bool {
 }
 
 func runC19(c *core.Ctx) {
+	c19c(c)
 	// ---- AA
 	if fn := c.Fn("C19.a", "auth", "(*CredentialsStore).AA"); fn != nil {
 		// params: c, username, password, perm
